@@ -10,6 +10,9 @@ import (
 	"net"
 	"os"
 	"os/exec"
+	"path/filepath"
+	"regexp"
+	"strconv"
 	"strings"
 	"syscall"
 	"time"
@@ -29,6 +32,11 @@ func init() {
 var fullAlphabet = []string{"ban", "unban", "use", "restart", "crash", "useB2", "sync"}
 var toggleAlphabet = []string{"ban", "unban", "use"}
 var restartAlphabet = []string{"ban", "unban", "use", "restart", "crash"}
+
+// agedAlphabet: the broker is stopped and comes back seven hours later on the same directory (every expiry time
+// recorded in the state file is moved seven hours into the past before the restart): an acknowledged ban is still in
+// force then, and an unbanned key still works, however the key's history of bans and unbans looked
+var agedAlphabet = []string{"ban", "unban", "use", "restart7h"}
 var peerAlphabet = []string{"ban", "unban", "sync", "useB2"}
 
 // peerFullAlphabet: the second broker learns through the periodic full-state exchange (one payload carrying the
@@ -243,6 +251,27 @@ func (in *inst) respelled(c *session.Client, sig string) {
 	}
 }
 
+// ageStateFile moves every absolute expiry time in a buntdb append-only file ("ae" field of a set record) the given
+// number of seconds into the past: to the store, that much time has passed since the records were written.
+var aeField = regexp.MustCompile(`\$2\r\nae\r\n\$\d+\r\n(\d+)\r\n`)
+
+func ageStateFile(path string, seconds int64) error {
+	raw, err := os.ReadFile(path)
+	if err != nil {
+		if os.IsNotExist(err) {
+			return nil
+		}
+		return err
+	}
+	out := aeField.ReplaceAllFunc(raw, func(m []byte) []byte {
+		sub := aeField.FindSubmatch(m)
+		at, _ := strconv.ParseInt(string(sub[1]), 10, 64)
+		v := strconv.FormatInt(at-seconds, 10)
+		return []byte(fmt.Sprintf("$2\r\nae\r\n$%d\r\n%s\r\n", len(v), v))
+	})
+	return os.WriteFile(path, out, 0o644)
+}
+
 func (in *inst) banRequest(b bool) {
 	resp, ok := in.client().Request("keyban", map[string]interface{}{"secret": in.b1.Master, "target": in.key, "banned": b})
 	var r struct {
@@ -287,6 +316,16 @@ func (in *inst) Apply(i int) {
 			in.cl.Abort()
 		}
 		in.b1.Close()
+		in.start()
+	case "restart7h":
+		if in.cl != nil {
+			in.cl.Abort()
+		}
+		in.b1.Close()
+		if err := ageStateFile(filepath.Join(in.dir, "ban.db"), 7*3600); err != nil {
+			in.fail("harness:age-state-file", err.Error())
+			return
+		}
 		in.start()
 	case "crash":
 		// abandon the running broker without closing anything and open a new one on the same directory
@@ -336,7 +375,7 @@ func compress(h []string) string {
 func (in *inst) sig(kind string) string {
 	feat := "toggle"
 	for _, o := range in.hist {
-		if o == "restart" {
+		if o == "restart" || o == "restart7h" {
 			feat = "restart"
 		}
 		if o == "crash" {
@@ -386,6 +425,8 @@ func alphabetOf(name string) []string {
 		return peerAlphabet
 	case "peerfull":
 		return peerFullAlphabet
+	case "aged":
+		return agedAlphabet
 	}
 	return fullAlphabet
 }
@@ -557,18 +598,20 @@ func run(c *core.Ctx) {
 		search(c, "restart", restartAlphabet, 4)
 		search(c, "peer", peerAlphabet, 6)
 		search(c, "peerfull", peerFullAlphabet, 6)
+		search(c, "aged", agedAlphabet, 5)
 		search(c, "full", fullAlphabet, 3)
 	} else {
 		search(c, "toggle", toggleAlphabet, 8)
 		search(c, "restart", restartAlphabet, 6)
 		search(c, "peer", peerAlphabet, 8)
 		search(c, "peerfull", peerFullAlphabet, 8)
+		search(c, "aged", agedAlphabet, 7)
 		search(c, "full", fullAlphabet, 5)
 	}
 	c.Add("states", c.Count("kill_cases"))
 	c.Add("transitions", c.Count("kill_cases"))
 	c.Add("traces_validated_against_impl", c.Count("kill_cases"))
-	c.Assume("the 60 s read-cache TTL and the 6 h tombstone TTL never elapse inside a run")
+	c.Assume("the 60 s read-cache TTL never elapses inside a run; the 6 h tombstone TTL elapses only through the 'restart7h' operation, which rewrites the expiry times recorded in the stopped broker's state file")
 	c.Assume("'crash' = a second Service opened on the state directory while the first is abandoned un-closed (buntdb writes each commit with an immediate write(2)); power loss is out of scope")
 	c.Assume("gossip to the second broker is delivered as the exact one-operation payloads the first broker broadcast, in order")
 }
